@@ -192,7 +192,8 @@ def build(prog):
             elif k == "vmap":
                 env[st["addr"]] = gf(*a) @ st["addr"]
             elif k == "scan":
-                env[st["addr"]] = gf(E.ev(st["init"], env), E.ev(st["xs"], env)) @ st["addr"]
+                kw = {n: E.ev(x, env) for n, x in st.get("kwargs", {}).items()}
+                env[st["addr"]] = gf(E.ev(st["init"], env), E.ev(st["xs"], env), **kw) @ st["addr"]
             elif k == "cond":
                 env[st["addr"]] = gf(E.ev(st["pred"], env), *a) @ st["addr"]
         return E.ev(ret, env)
@@ -615,14 +616,25 @@ class Generator:
 
     def stmt_scan(self, sc):
         T = self.fresh_size()
-        step = self.fn(sc.depth + 1, ret="step", force_params=[("f", ()), ("f", ())])
+        fp = [("f", ()), ("f", ())]
+        if self.cfg.get("scan_kwargs", 0.5) > 0 and self.rng.random() < 0.5:
+            fp.append(("f", ()))  # a third scalar parameter, candidate for the keyword form
+        step = self.fn(sc.depth + 1, ret="step", force_params=fp)
         extra = step["params"][2:]
+        kwargs = {}
         if extra:
-            # a scan step takes exactly (carry, x): fold extra params into constants
-            step = self._close_extra_params(step)
+            # a scan step takes (carry, x); one extra scalar parameter may stay and be passed to the Scan BY KEYWORD
+            # (forwarded to every step), the others are folded into constants
+            keep = 0
+            if tuple(step["ptypes"][2]) == ("f", []) or (step["ptypes"][2][0] == "f" and list(step["ptypes"][2][1]) == []):
+                if self.rng.random() < self.cfg.get("scan_kwargs", 0.5):
+                    keep = 1
+            step = self._close_extra_params(step, keep)
+            if keep:
+                kwargs[step["params"][2]] = sc.need(("f", ()))
         addr = sc.fresh_addr()
         sc.body.append({"k": "scan", "addr": addr, "step": step, "length": T,
-                        "init": sc.need(("f", ())), "xs": sc.need(("f", (T,)), p_reuse=0.4)})
+                        "init": sc.need(("f", ())), "xs": sc.need(("f", (T,)), p_reuse=0.4), "kwargs": kwargs})
         # retval (final carry, outs): expose both as variables
         sc.vars[addr] = ("tuple", ())
         sc.body.append({"k": "let", "var": addr + "_c", "e": ["get", ["v", addr], 0]})
@@ -631,10 +643,10 @@ class Generator:
         sc.vars[addr + "_c"] = ("f", ())
         sc.vars[addr + "_o"] = ("f", (T,))
 
-    def _close_extra_params(self, prog):
+    def _close_extra_params(self, prog, keep=0):
         prog = copy.deepcopy(prog)
         consts = {}
-        for name, (cls, shape) in list(zip(prog["params"], prog["ptypes"]))[2:]:
+        for name, (cls, shape) in list(zip(prog["params"], prog["ptypes"]))[2 + keep:]:
             if cls == "f":
                 consts[name] = ["c", np.round(self.rng.normal(size=tuple(shape)), 3).tolist()]
             elif cls == "b":
@@ -653,8 +665,8 @@ class Generator:
 
         prog["body"] = [sub(st) for st in prog["body"]]
         prog["ret"] = sub(prog["ret"])
-        prog["params"] = prog["params"][:2]
-        prog["ptypes"] = prog["ptypes"][:2]
+        prog["params"] = prog["params"][:2 + keep]
+        prog["ptypes"] = prog["ptypes"][:2 + keep]
         return prog
 
     def stmt_cond(self, sc):
@@ -740,7 +752,8 @@ def show(prog, indent=0):
             if "dist" not in c:
                 lines.append(show(c, indent + 2))
         elif k == "scan":
-            lines.append(f"{pad}  {st['addr']} ~ scan[T={st['length']}] init={_sx(st['init'])} xs={_sx(st['xs'])}")
+            lines.append(f"{pad}  {st['addr']} ~ scan[T={st['length']}] init={_sx(st['init'])} xs={_sx(st['xs'])}"
+                         + (f" kwargs={ {n: _sx(x) for n, x in st['kwargs'].items()} }" if st.get("kwargs") else ""))
             lines.append(show(st["step"], indent + 2))
         elif k == "cond":
             lines.append(f"{pad}  {st['addr']} ~ cond pred={_sx(st['pred'])}{_sx(st['args'])}")
@@ -907,6 +920,7 @@ def bare_program(gen: "Generator"):
     rng = gen.rng
     gen.tag = 0
     gen.used_sizes = set()
+    gen.cfg = dict(gen.cfg, scan_kwargs=0.0)  # the bare adapter passes (init, xs) positionally
     for _ in range(20):
         sc = Scope(gen, 0)
         sc.fresh_param(("f", ()))
